@@ -28,6 +28,7 @@ SPEC = {
         "hashes_arrival_before_fallback": 200,
         "known_item_announcements": 200,
         "cap_path_pendings": 500,
+        "items_sharing_hash_value_across_types": 300,
         "flood_cap_reached": 1,
         "race_detector_runs": 4,
     },
